@@ -15,10 +15,14 @@ def main():
     mod = importlib.import_module(f"contracts.{pid}")
     for c in mod.contracts():
         reg.add(c)
+    for extra in getattr(mod, "USES", []):
+        for c in importlib.import_module(f"contracts.{extra}").contracts():
+            c._foreign = True
+            reg.add(c)
     ctx = Ctx(facts, reg)
     reps = []
     for c in reg.contracts:
-        if flt and flt not in c.ident:
+        if (flt and flt not in c.ident) or c.interface or getattr(c, "_foreign", False):
             continue
         t1 = time.time()
         rep = verify_contract(ctx, c)
